@@ -5,7 +5,8 @@ Nothing here reads a fixture; a document is described by a *recipe*, a JSON-able
 record specs in file order (bottom of the layer stack first):
 
     {"t": "leaf",  "keys": ["TYPE_TOOL_OBJECT_SETTING", ...], "clip": bool, "pdi": bool,
-                   "blend": "NORMAL", "name": "...", "flags": {"visible": false, ...}}   # any LayerFlags field
+                   "blend": "NORMAL", "name": "...", "flags": {"visible": false, ...},   # any LayerFlags field
+                   "nch": 4}                                         # number of channels of the record (any spec; 0 = empty list)
     {"t": "bound", "via": "sds"|"nsds"|"both"}                       # BOUNDING_SECTION_DIVIDER record
     {"t": "close", "folder": "open"|"closed", "via": "sds"|"nsds"|"both"|"nsds-over-other",
                    "artboard": [] | ["ARTBOARD_DATA1", ...], "clip": bool,
@@ -99,9 +100,10 @@ def make_record(spec, index=0):
     for fname, fval in (spec.get("flags") or {}).items():
         if hasattr(rec.flags, fname):           # a renamed flag is simply not set (the caller compares with the table)
             setattr(rec.flags, fname, bool(fval))
-    rec.channel_info = [ChannelInfo(id=i - 1, length=2) for i in range(4)]
+    nch = int(spec.get("nch", 4))
+    rec.channel_info = [ChannelInfo(id=i - 1, length=2) for i in range(nch)]
     ch = ChannelDataList()
-    for _ in range(4):
+    for _ in range(nch):
         ch.append(ChannelData(compression=Compression.RAW, data=b""))
     return rec, ch
 
@@ -143,7 +145,11 @@ def nested(tree, **group_defaults):
             for k, v in group_defaults.items():
                 d.setdefault(k, v)
             bvia = d.pop("bvia", d.get("via", "sds"))
-            out.append({"t": "bound", "via": bvia if bvia != "nsds-over-other" else "sds"})
+            bnch = d.pop("bnch", None)            # number of channels of the bounding-divider record ("nch": of the group record)
+            bound = {"t": "bound", "via": bvia if bvia != "nsds-over-other" else "sds"}
+            if bnch is not None:
+                bound["nch"] = bnch
+            out.append(bound)
             out += nested(n["g"], **group_defaults)
             out.append(dict(d, t="close"))
         else:
